@@ -186,11 +186,16 @@ def check_shims(ck, binary, tar_path, tmp, tag):
                 ck.hit("shim_npz_checked")
                 mo = pathlib.Path(tmp) / f"{tag}-{p.name}.{member}"
                 rc, out, err = run_h(binary, "npz", raw_out, member + ".npy", mo)
+                arr = npz[member]
+                if arr.dtype.str not in ("<f8", ">f8", "=f8") or arr.ndim != 4:
+                    # ndarray-npy refuses members that are not rank-4 f64: the shim must refuse as well
+                    if rc == 0:
+                        problems.append(f"npz shim: {p.name}:{member} accepted dtype {arr.dtype.str} ndim {arr.ndim}")
+                    continue
                 if rc != 0 or not mo.exists():
                     problems.append(f"npz shim: {p.name}:{member}: {out} {err[-200:]}")
                     continue
                 shape, data = read_dump(mo)
-                arr = npz[member]
                 if shape != arr.shape or data != np.ascontiguousarray(arr).astype("<f8").tobytes():
                     problems.append(f"npz shim: {p.name}:{member} differs from numpy.load")
             raw_out.unlink(missing_ok=True)
@@ -284,7 +289,19 @@ def run(ck):
         ck.inconclusive("cargo/rustc not installed: the Rust side cannot be executed")
         return
     n_arch = ck.n(20, 500)
+    import tempfile
+
     with scratch.tmpdir("eko-verif-c54-") as tmp:
+        # the store builds archives in tempfile.mkdtemp(prefix="eko-"): keep those inside our scratch as well
+        old_tmp, tempfile.tempdir = tempfile.tempdir, tmp
+        try:
+            _run(ck, tmp, n_arch)
+        finally:
+            tempfile.tempdir = old_tmp
+
+
+def _run(ck, tmp, n_arch):
+    if True:
         try:
             if os.environ.get("VERIF_DEKODER_HARNESS"):  # development aid only: a binary built earlier from the same tree
                 binary = os.environ["VERIF_DEKODER_HARNESS"]
